@@ -47,15 +47,48 @@ func vfRefFreq(rows [][]uint8, sel []bool, w []float64, use []bool) (num [4]floa
 	return
 }
 
-func vfProbaNt(n, L int, gaps bool) {
+// vfCodesIn: L symbolic codes taken from `set` (nil: every code 0..15); without gaps: code 0 excluded.
+// probaNt indexes the table of possible nucleotides with the code: the engine enumerates the
+// code of every cell (16 cases per cell), so the shapes are kept at <= 2 cells with all codes
+// and 4 cells with a set of 4 codes.
+func vfCodesIn(L int, set []uint8, gaps bool) []uint8 {
+	s := vfCodes(L)
+	for i := range s {
+		if set != nil {
+			in := false
+			for _, c := range set {
+				in = in || s[i] == c
+			}
+			assume(in)
+		}
+		if !gaps {
+			assume(s[i] >= 1)
+		}
+	}
+	return s
+}
+
+// code sets for the 4-cell shapes: gap, one base, a two-fold and the four-fold ambiguity code.
+var vfSetA = []uint8{0, vfA, vfA | vfG, 15}
+var vfSetB = []uint8{0, vfC, vfC | vfT, vfC | vfG | vfT}
+
+// vfShape enumerates the quick shapes: (1x1, 2x1, 1x2) with all codes, 2x2 with a code set.
+func vfShape() (n, L int, set []uint8) {
+	switch nondetRange(0, 3) {
+	case 0:
+		return 1, 1, nil
+	case 1:
+		return 2, 1, nil
+	case 2:
+		return 1, 2, nil
+	}
+	return 2, 2, vfSetA
+}
+
+func vfProbaNt(n, L int, set []uint8, gaps bool) {
 	rows := make([][]uint8, n)
 	for r := range rows {
-		rows[r] = vfCodes(L)
-		if !gaps {
-			for i := range rows[r] {
-				assume(rows[r][i] >= 1)
-			}
-		}
+		rows[r] = vfCodesIn(L, set, gaps)
 	}
 	sel := vfSelSym(L)
 	w := vfWeights(L)
@@ -73,34 +106,35 @@ func vfProbaNt(n, L int, gaps bool) {
 }
 
 // H_C07_proba_nt: probaNt equals the ambiguity-sharing base frequencies of the selected sites (gaps are not bases).
-// bounds: n<=2 rows, L<=2 sites, codes 0..15 (gaps included), symbolic selectedSites, weights nil or dyadic k/2 (k=1..8)
-// outside: n>2, L>2; IEEE rounding is outside the claim: floats are exact reals
+// bounds: shapes 1x1, 2x1, 1x2 with codes 0..15 (gaps included) and 2x2 with codes in {gap, A, R, N}; symbolic selectedSites, weights nil or dyadic k/2 (k=1..8)
+// outside: larger shapes; IEEE rounding is outside the claim: floats are exact reals
 func H_C07_proba_nt() {
-	vfProbaNt(nondetRange(1, 2), nondetRange(1, 2), true)
+	n, L, set := vfShape()
+	vfProbaNt(n, L, set, true)
 }
 
 // H_C07_proba_nt_nogap: as H_C07_proba_nt on alignments without gaps (excludes exactly the region where gap cells enter the denominator).
-// bounds: n<=2 rows, L<=2 sites, codes 1..15 (every cell a nucleotide or ambiguity code), symbolic selectedSites, weights nil or dyadic k/2 (k=1..8)
-// outside: gaps (H_C07_proba_nt), n>2, L>2; IEEE rounding is outside the claim: floats are exact reals
+// bounds: shapes 1x1, 2x1, 1x2 with codes 1..15 and 2x2 with codes in {A, R, N}; symbolic selectedSites, weights nil or dyadic k/2 (k=1..8)
+// outside: gaps (H_C07_proba_nt), larger shapes; IEEE rounding is outside the claim: floats are exact reals
 func H_C07_proba_nt_nogap() {
-	vfProbaNt(nondetRange(1, 2), nondetRange(1, 2), false)
+	n, L, set := vfShape()
+	vfProbaNt(n, L, set, false)
 }
 
-// H_C07_proba_nt_nogap_deep: as H_C07_proba_nt_nogap, larger.
-// bounds: n=3 rows, L=3 sites, codes 1..15
+// H_C07_proba_nt_nogap_deep: as H_C07_proba_nt_nogap, 2x2 with all codes, 3x2 with 3 codes.
+// bounds: 2 rows x 2 sites, codes 1..15; 3 rows x 2 sites, codes in {C, Y, B}
 // outside: IEEE rounding is outside the claim: floats are exact reals
 //verif: tier=thorough
 func H_C07_proba_nt_nogap_deep() {
-	vfProbaNt(3, 3, false)
+	if nondetRange(0, 1) == 0 {
+		vfProbaNt(2, 2, nil, false)
+	} else {
+		vfProbaNt(3, 2, vfSetB, false)
+	}
 }
 
-func vfProbaNt2(L int, gaps bool) {
-	s1, s2 := vfCodes(L), vfCodes(L)
-	if !gaps {
-		for i := 0; i < L; i++ {
-			assume(s1[i] >= 1 && s2[i] >= 1)
-		}
-	}
+func vfProbaNt2(L int, set []uint8, gaps bool) {
+	s1, s2 := vfCodesIn(L, set, gaps), vfCodesIn(L, set, gaps)
 	sel := vfSelSym(L)
 	w := vfWeights(L)
 	pi, err := probaNt2Seqs(s1, s2, sel, w)
@@ -122,18 +156,26 @@ func vfProbaNt2(L int, gaps bool) {
 }
 
 // H_C07_proba_nt2: probaNt2Seqs equals the ambiguity-sharing base frequencies of the pair on its comparable sites.
-// bounds: L<=2 sites, codes 0..15 (gaps included), symbolic selectedSites, weights nil or dyadic k/2 (k=1..8)
+// bounds: L=1 with codes 0..15 (gaps included), L=2 with codes in {gap, C, Y, B}; symbolic selectedSites, weights nil or dyadic k/2 (k=1..8)
 // outside: L>2; IEEE rounding is outside the claim: floats are exact reals
 // assumes: probaNt2Seqs is not called by any model of this version (dead code); a failure has no visible effect on distances
 func H_C07_proba_nt2() {
-	vfProbaNt2(nondetRange(1, 2), true)
+	if nondetRange(1, 2) == 1 {
+		vfProbaNt2(1, nil, true)
+	} else {
+		vfProbaNt2(2, vfSetB, true)
+	}
 }
 
 // H_C07_proba_nt2_nogap: as H_C07_proba_nt2 on pairs without gaps.
-// bounds: L<=2 sites, codes 1..15, symbolic selectedSites, weights nil or dyadic k/2 (k=1..8)
+// bounds: L=1 with codes 1..15, L=2 with codes in {C, Y, B}; symbolic selectedSites, weights nil or dyadic k/2 (k=1..8)
 // outside: gaps (H_C07_proba_nt2), L>2; IEEE rounding is outside the claim: floats are exact reals
 func H_C07_proba_nt2_nogap() {
-	vfProbaNt2(nondetRange(1, 2), false)
+	if nondetRange(1, 2) == 1 {
+		vfProbaNt2(1, nil, false)
+	} else {
+		vfProbaNt2(2, vfSetB, false)
+	}
 }
 
 // ---------------------------------------------------------------------------------------------
@@ -206,11 +248,19 @@ func vfMasks(orig [][]uint8) [][]uint8 {
 }
 
 func vfInitParams(n, L int, letters []uint8) {
+	if L == 2 {
+		// 4 cells: 3 letters (the encoder and probaNt enumerate every cell)
+		if letters[len(letters)-1] == '-' {
+			letters = []uint8{'A', 'y', '-'}
+		} else {
+			letters = []uint8{'A', 'y', 'N'}
+		}
+	}
 	al, orig := vfSymDNA(n, L, letters)
 	masks := vfMasks(orig)
 	w := vfWeights(L)
 	rmgaps := nondetRange(0, 1) == 1
-	gamma := nondetRange(0, 1) == 1
+	gamma := nondetBool()
 	alpha := 0.5
 	which := nondetRange(0, 2)
 
@@ -266,14 +316,14 @@ func vfInitParams(n, L int, letters []uint8) {
 }
 
 // H_C07_init_params: InitModel of F81/F84/TN93 encodes the rows, records gamma/alpha, estimates the base frequencies and derives B (F81) and A,B,C (F84) from them as published.
-// bounds: n=2 rows, L<=2 sites, residues in {A,C,G,T,a,R,y,N,B,-}, rm-gaps on/off, weights nil or dyadic k/2 (k=1..8), gamma on/off
+// bounds: n=2 rows; L=1 with residues in {A,C,G,T,a,R,y,N,B,-}, L=2 with residues in {A,y,-}; rm-gaps on/off, weights nil or dyadic k/2 (k=1..8), gamma on/off
 // outside: other residues, n>2, L>2; IEEE rounding is outside the claim: floats are exact reals
 func H_C07_init_params() {
 	vfInitParams(2, nondetRange(1, 2), vfLetters)
 }
 
 // H_C07_init_params_nogap: as H_C07_init_params on alignments without gaps (excludes the region where probaNt counts gap cells in its denominator).
-// bounds: n=2 rows, L<=2 sites, residues in {A,C,G,T,a,R,y,N,B}, rm-gaps on/off, weights nil or dyadic k/2 (k=1..8), gamma on/off
+// bounds: n=2 rows; L=1 with residues in {A,C,G,T,a,R,y,N,B}, L=2 with residues in {A,y,N}; rm-gaps on/off, weights nil or dyadic k/2 (k=1..8), gamma on/off
 // outside: gaps (H_C07_init_params), n>2, L>2; IEEE rounding is outside the claim: floats are exact reals
 func H_C07_init_params_nogap() {
 	vfInitParams(2, nondetRange(1, 2), vfLetters[:len(vfLetters)-1])
@@ -283,40 +333,47 @@ func H_C07_init_params_nogap() {
 // (D) selectedSites
 
 // H_C07_selected_sites: selectedSites keeps every site without rm-gaps; with rm-gaps it drops exactly the sites containing >= 1 gap (documentation of --rm-gaps); numSites is the weight of the kept sites.
-// bounds: n<=2 rows, L<=3 sites, residues in {A,C,G,T,a,R,y,N,B,-}, weights nil or dyadic k/2 (k=1..8)
-// outside: other residues (*, ?, X, .), n>2, L>3; IEEE rounding is outside the claim: floats are exact reals
+// bounds: n<=2 rows, L<=2 sites, residues in {A,C,G,T,a,R,y,N,B,-}, weights nil or dyadic k/2 (k=1..8)
+// outside: other residues (*, ?, X, .), n>2, L>2 (thorough twin: n=2, L=3); IEEE rounding is outside the claim: floats are exact reals
 func H_C07_selected_sites() {
-	n := nondetRange(1, 2)
-	L := nondetRange(1, 3)
+	vfSelectedSites(nondetRange(1, 2), nondetRange(1, 2))
+}
+
+// H_C07_selected_sites_L3: as H_C07_selected_sites with 2 rows and 3 sites.
+// bounds: n=2, L=3
+// outside: IEEE rounding is outside the claim: floats are exact reals
+//verif: tier=thorough
+func H_C07_selected_sites_L3() {
+	vfSelectedSites(2, 3)
+}
+
+func vfSelectedSites(n, L int) {
 	al, orig := vfSymDNA(n, L, vfLetters)
 	w := vfWeights(L)
-	rmgaps := nondetBool()
+	rmgaps := nondetRange(0, 1) == 1
 	num, sel := selectedSites(al, w, rmgaps)
 	verifReach("called")
 	verifAssert(len(sel) == L, "one flag per site")
 	ref := 0.0
+	anyAmbigNoGap := false
 	for j := 0; j < L; j++ {
 		gap, ambig := false, false
 		for r := 0; r < n; r++ {
-			if orig[r][j] == '-' {
-				gap = true
-			} else if vfAmbiguous(vfMaskOfLetter(orig[r][j])) {
-				ambig = true
-			}
+			gap = gap || orig[r][j] == '-'
+			ambig = ambig || vfAmbiguous(vfMaskOfLetter(orig[r][j]))
 		}
-		if !rmgaps {
-			verifAssert(sel[j], "without rm-gaps every site is selected")
-		} else if gap {
-			verifAssert(!sel[j], "rm-gaps: a site with a gap is not selected")
-		} else if !ambig {
-			verifAssert(sel[j], "rm-gaps: a site of A,C,G,T only is selected")
-		} else {
-			verifReach("ambiguous-no-gap")
-			verifAssert(sel[j], "rm-gaps: a site without gap is selected even if it carries an ambiguity code (only positions containing >=1 gaps are dropped)")
-		}
+		// (implications instead of branches: fewer paths)
+		verifAssert(rmgaps || sel[j], "without rm-gaps every site is selected")
+		verifAssert(!(rmgaps && gap) || !sel[j], "rm-gaps: a site with a gap is not selected")
+		verifAssert(!(rmgaps && !gap && !ambig) || sel[j], "rm-gaps: a site of A,C,G,T only is selected")
+		verifAssert(!(rmgaps && !gap && ambig) || sel[j], "rm-gaps: a site without gap is selected even if it carries an ambiguity code (only positions containing >=1 gaps are dropped)")
+		anyAmbigNoGap = anyAmbigNoGap || (rmgaps && !gap && ambig)
 		if sel[j] {
 			ref += vfW(w, j)
 		}
 	}
 	verifAssert(num == ref, "numSites = weight of the selected sites")
+	if anyAmbigNoGap {
+		verifReach("ambiguous-no-gap")
+	}
 }
